@@ -14,7 +14,7 @@ from pyvc.spec import Args, Spec
 from pyvc.strings import FStr, Num
 from pyvc.values import Unsupported
 
-from .timekeeper import make_timer, time_at
+from .timekeeper import TKStep2Time, make_timer, time_at
 
 
 def same_string(cx, got, exp, label):
@@ -60,6 +60,7 @@ class Step2IsoTime(Spec):
     name = "TimeKeeper.step2isotime"
     properties = ("C13", "C10")
     inline = ()
+    callees = {"ladim.timekeeper.TimeKeeper.step2time": TKStep2Time()}  # used modularly if the function delegates to it
 
     def inputs(self, cx):
         cx.ghost["structured_fstrings"] = True
